@@ -216,6 +216,8 @@ var c19TopWidth = 1
 var c19Items = []string{
 	"a", "x : a", "a ( p : 1 )", `b ( q : "s" , p : 2 )`, "a @d", "b @e ( r : [ 1 , { k : $v } ] )", "c { d }", "c ( p : 3 ) @d { d ( q : 4 ) }",
 	"... F", "... F @d", "... G @e ( r : 5 )", "... on T { a }", "... on U @d { b ( p : 6 ) }", "... { a }", "... @e ( r : 7 ) { a ( p : 8 ) }",
+	// meta fields decorated like any other field
+	"__typename", "__typename @include ( if : $v )", "t : __typename @d @e ( r : 9 )", `__type ( name : "T" ) @d { name @e ( r : 10 ) }`, "__schema @d { types { name } }",
 }
 
 func runC19(c *explore.Ctx) {
